@@ -74,6 +74,14 @@ def sections(ctx, out):
     for _ in range(ctx.n(150, 15_000)):
         src = gen.rand_src(rng, prof)
         cases.append((src, gen.render(src, rng, prof)))
+    # any line order: on a single-tempo chart every order of the events lines is accepted, and each list keeps file order
+    for _ in range(ctx.n(60, 6000)):
+        src = gen.rand_src(rng, prof)
+        src.tempo = src.tempo[:1]
+        if len(src.gevents) < 3:
+            src.gevents += [(rng.randint(0, 3000), *gen.rand_text(rng, prof)) for _ in range(4)]
+        rng.shuffle(src.gevents)
+        cases.append((src, gen.render(src, rng, prof)))
     # long sections (loop-length-dependent behaviour): several hundred lines, text events in the majority
     for _ in range(ctx.n(4, 80)):
         src = gen.rand_src(rng, prof)
